@@ -152,14 +152,11 @@ namespace options
 
             if (has_short_name() && arg.is_short())
             {
+                // only toggles can be bundled into one short argument (see toggle::matches);
+                // everything else is matched by exactly its own letter
                 auto list = arg.as_short_list();
 
-                if (list.size() > 1 && arg.has_value())
-                {
-                    return false;
-                }
-
-                return list.count(short_name());
+                return list.size() == 1 && list.count(short_name());
             }
             else if (arg.is_named())
             {
